@@ -9,7 +9,7 @@ from . import c01
 from . import common as cm
 from .c01 import A, D, R, T
 
-SITES = {"P": (10, 1), "Q": (11, 2), "T": (12, 3)}  # grid, site of every labware for EVO script commands
+SITES = {"P": (10, 1), "Q": (11, 2), "T": (12, 3), "U": (13, 1)}  # grid, site of every labware for EVO script commands
 
 
 def EA(lw, wells, tips, v, **kw):
@@ -92,6 +92,30 @@ def failing_W3():
     return ev
 
 
+def core_W6():
+    return [
+        T("T", ["A02"], "P", ["A01"], [7.5]),
+        T("P", ["B01"], "T", ["A01"], [30]),
+        A("T", ["A01"], 0.25),
+        D("T", ["B02"], 0.25),
+    ]
+
+
+def failing_W6():
+    return [
+        A("T", ["A01"], 0.75),
+        A("T", ["A01", "B01"], [0.25, 0.5]),
+        T("T", ["C01"], "P", ["A02"], [0.75]),
+        T("T", ["A01", "B01"], "P", ["A02", "B02"], [0.25, 0.5]),
+        D("T", ["A02"], 0.75),
+        D("T", ["A02", "C02"], [0.25, 0.5]),
+        T("P", ["A03"], "T", ["B02"], [0.75]),
+        R("T", 0, "P", ["A01", "B01"], 0.5),
+        R("T", 0, "P", ["A01"], 0.75),
+        T("P", ["A01", "B01"], "T", ["A02", "A02"], [0.25, 0.5]),
+    ]
+
+
 def evo_events():
     return [
         # tips given in descending order with individual volumes: must not be emitted with swapped volumes
@@ -143,6 +167,8 @@ class Harness(cm.BaseA):
                     out.append(
                         {"set": sname, "labware": c01.SETS[sname][0](), "worklists": {"w": {"cls": cls, "max_volume": 50, "auto_split": asplit}}}
                     )
+        for cls in ("EvoWorklist", "FluentWorklist"):
+            out.append({"set": "W6", "labware": cm.W6(), "worklists": {"w": {"cls": cls, "max_volume": 50, "auto_split": True}}})
         return out
 
     def _robot(self, config):
@@ -158,9 +184,13 @@ class Harness(cm.BaseA):
         return W
 
     def core_events(self, W, config):
+        if config["set"] == "W6":
+            return core_W6()
         return c01.SETS[config["set"]][1]()
 
     def full_events(self, W, config):
+        if config["set"] == "W6":
+            return core_W6() + failing_W6()
         ev = list(c01.SETS[config["set"]][2]("quick"))
         ev += failing_W1() if config["set"] == "W1" else failing_W3()
         if config["worklists"]["w"]["cls"] == "EvoWorklist":
